@@ -30,6 +30,26 @@ NEEDS = {
  'C18-a': ('C18', ['C15'], 'TexArgs.pop delegates to remove(): pops the first argument with equal text instead of the one at the index'),
  'C19-a': ('C19', ['C08'], 'tokenize_spacers treats CR LF as one line break but keeps only the LF: the CR disappears from the tokens'),
  'C20-a': ('C20', [], 'Buffer.endswith short-cuts on len(s) > cursor, comparing characters with items: wrong on token-backed buffers'),
+ 'C01-b': ('C01', ['C11'], 'read_skip_env scans to the first `\\end` of any kind and checks the name only there: a verbatim-like body that contains a foreign `\\end{..}` (or a bare `\\end`) is reported as unclosed'),
+ 'C02-b': ('C02', ['C01'], 'read_arg_optional/required stop at nine collected groups: a command or environment followed by ten or more adjacent groups leaves the tenth as a free group'),
+ 'C03-b': ('C03', ['C04'], '`find` walks in an order different from find_all: find(name) is no longer find_all(name)[0] when an earlier match is nested deeper'),
+ 'C04-b': ('C04', ['C03'], 'read_arg builds every group with preserve_whitespace=True: a FREE brace group (not an argument) that holds a blank-only token shows it in contents/text/descendants'),
+ 'C05-b': ('C05', ['C15'], '__holder trusts expr.parent, which append() does not refresh: a node parsed inside an argument/group/item, appended elsewhere and then deleted/replaced there edits the old place'),
+ 'C06-b': ('C06', ['C19'], 'tokenize_line_comment declines after a bare Escape token: NUL/DEL next to a backslash before `%` makes next_token spin forever (no tree, no error)'),
+ 'C07-b': ('C07', ['C06'], 'tolerant mode ends an open environment at an unbalanced `}` in its body: where strict parsing succeeds (the `}` is text), tolerant parsing returns another tree and inserts an `\\end{name}`'),
+ 'C08-b': ('C08', ['C16', 'C19'], '`~` is filed under the Spacer category: a tilde between a command and its argument group is dropped like a blank but is not whitespace'),
+ 'C09-b': ('C09', ['C16'], 'a blank line after a bracket group no longer ends the argument run'),
+ 'C10-b': ('C10', ['C08'], 'the comment loop consumes backslash + line break as one escaped symbol: a payload ending in an odd number of backslashes runs on over the next line'),
+ 'C11-b': ('C11', ['C10'], 'read_skip_env matches the closing marker as a prefix (`\\end{verbatim` without the brace): a body containing `\\end{verbatimtab}` or `\\end{verbatim*}` ends the environment early'),
+ 'C12-b': ('C12', ['C19'], 'tokenize_punctuation_command_name refuses `left[`/`big]`... when two escapes precede: `\\\\\\left[` directly after a line break opens an optional argument'),
+ 'C13-b': ('C13', ['C19'], 'Token.__iadd__ uses `self.position or other.position`: a text/comment/whitespace token of two or more characters starting at offset 0 records position 1'),
+ 'C14-b': ('C14', ['C18'], 'TexArgs.__str__ prints the shadow list `.all`: in-place list edits of node.args (slot swap, slice assignment, del, insert(0, ..)) do not reach the printed text'),
+ 'C15-b': ('C15', ['C05'], 'TexNode.insert stores the TexNode wrapper instead of its expression: nothing below an inserted node is found, later replace/delete of it falls back to textual lookup'),
+ 'C16-b': ('C16', ['C08'], 'read_args returns early on a blank line after the command name but leaves the first spacer consumed: one newline is lost on save 1 and the following group becomes an argument on load 2'),
+ 'C17-b': ('C17', ['C18'], 'argument-less signature commands (\\in, \\cup, \\noindent, ...) all share one module-level TexArgs object: editing the args of one changes every tree and every later parse'),
+ 'C18-b': ('C18', ['C14'], 'TexArgs.remove finds the identical object first: remove(args[2]) with an equal group earlier removes the later one, unlike list.remove'),
+ 'C19-b': ('C19', ['C06', 'C08'], 'next_token makes a single pass over the tokenizers: after tokenize_ignore consumed NUL/DEL at a token boundary, a following `%` or `$` ends the token stream silently'),
+ 'C20-b': ('C20', [], 'Buffer.num_forward_until is rewritten on top of forward_until and counts characters instead of items: wrong count and rewind on token-backed buffers with multi-character tokens'),
 }
 
 
